@@ -3,6 +3,7 @@ package rules
 
 import (
 	"fmt"
+	"go/constant"
 	"go/token"
 	"go/types"
 	"sort"
@@ -364,6 +365,204 @@ func Common(id string, p *core.Prog, r *core.Report) {
 			}
 		}
 	}
+
+	// a guard that lets a collection through to be submitted / signed / sent asks whether it is empty, not whether it
+	// has more than some number of elements: `len(x) > 1` before submit(x) drops the single-element case
+	for _, f := range fns {
+		for _, b := range f.Blocks {
+			iff, ok := b.Instrs[len(b.Instrs)-1].(*ssa.If)
+			if !ok {
+				continue
+			}
+			cmp, ok := iff.Cond.(*ssa.BinOp)
+			if !ok {
+				continue
+			}
+			var coll ssa.Value
+			var k *ssa.Const
+			op := cmp.Op
+			lenArg := func(v ssa.Value) ssa.Value {
+				if call, ok := v.(*ssa.Call); ok {
+					if bi, ok := call.Call.Value.(*ssa.Builtin); ok && bi.Name() == "len" {
+						return call.Call.Args[0]
+					}
+				}
+				return nil
+			}
+			if a := lenArg(cmp.X); a != nil {
+				coll = a
+				k, _ = cmp.Y.(*ssa.Const)
+			} else if a := lenArg(cmp.Y); a != nil {
+				coll = a
+				k, _ = cmp.X.(*ssa.Const)
+				switch op {
+				case token.GTR:
+					op = token.LSS
+				case token.GEQ:
+					op = token.LEQ
+				case token.LSS:
+					op = token.GTR
+				case token.LEQ:
+					op = token.GEQ
+				}
+			}
+			if coll == nil || k == nil || k.Value == nil || k.Value.Kind() != constant.Int {
+				continue
+			}
+			kv := k.Int64()
+			// the edge on which the collection is "large enough", and the smallest length that takes it
+			edge, least := -1, int64(0)
+			switch op {
+			case token.GTR:
+				edge, least = 0, kv+1
+			case token.GEQ:
+				edge, least = 0, kv
+			case token.LSS:
+				edge, least = 1, kv
+			case token.LEQ:
+				edge, least = 1, kv+1
+			default:
+				continue
+			}
+			if least <= 1 {
+				continue
+			}
+			arm := b.Succs[edge]
+			if len(arm.Preds) != 1 {
+				continue
+			}
+			core.EachInstr(f, func(in ssa.Instruction) {
+				ci, ok := in.(ssa.CallInstruction)
+				if !ok || !arm.Dominates(in.Block()) {
+					return
+				}
+				name := strings.ToLower(core.CalleeName(ci.Common()))
+				if i := strings.LastIndexAny(name, "./"); i >= 0 {
+					name = name[i+1:]
+				}
+				if !(strings.Contains(name, "submit") || strings.Contains(name, "sign") || strings.Contains(name, "send") || strings.Contains(name, "publish")) {
+					return
+				}
+				for _, a := range ci.Common().Args {
+					if a == coll {
+						r.Violate(id+".x", core.FnKey(f)+"|emptiness-guard|"+core.CalleeName(ci.Common()), p.Pos(core.IfPos(iff)), fmt.Sprintf("the collection handed to %s is let through only when it holds at least %d elements: a collection of fewer (non-zero) elements is silently dropped", core.CalleeName(ci.Common()), least))
+					}
+				}
+			})
+		}
+	}
+
+	// a quotient of two run-time quantities is zero whenever the dividend is the smaller one: it is not used as a
+	// divisor or modulus as it stands (the clamp `if m < 1 { m = 1 }` / max(m, 1) makes it a phi or a call)
+	for _, f := range fns {
+		core.EachInstr(f, func(in ssa.Instruction) {
+			bo, ok := in.(*ssa.BinOp)
+			if !ok || bo.Op != token.REM {
+				return
+			}
+			if b, ok := bo.Type().Underlying().(*types.Basic); !ok || b.Info()&types.IsInteger == 0 {
+				return
+			}
+			dv := bo.Y
+			for {
+				if cv, ok := dv.(*ssa.Convert); ok {
+					dv = cv.X
+					continue
+				}
+				if ct, ok := dv.(*ssa.ChangeType); ok {
+					dv = ct.X
+					continue
+				}
+				break
+			}
+			inner, ok := dv.(*ssa.BinOp)
+			if !ok || inner.Op != token.QUO {
+				return
+			}
+			if _, isConst := inner.Y.(*ssa.Const); isConst {
+				return
+			}
+			if ib, ok := inner.Type().Underlying().(*types.Basic); !ok || ib.Info()&types.IsInteger == 0 {
+				return
+			}
+			// a test of the quotient anywhere (if q == 0 { return }) counts as the clamp
+			if inner.Referrers() != nil {
+				for _, ref := range *inner.Referrers() {
+					if c, ok := ref.(*ssa.BinOp); ok {
+						switch c.Op {
+						case token.EQL, token.NEQ, token.LSS, token.LEQ, token.GTR, token.GEQ:
+							return
+						}
+					}
+				}
+			}
+			r.Violate(id+".x", core.FnKey(f)+"|unclamped-quotient-as-divisor|"+ds.D(inner).String(), p.Pos(bo.Pos()), "the modulus of this % is the integer quotient "+ds.D(inner).String()+" as it stands: it is zero whenever the dividend is smaller than the divisor, and the operation panics (integer divide by zero)")
+		})
+	}
+
+	// a closure that is run later (scheduled, or started as a goroutine) from inside a loop does not share a variable
+	// that lives outside the loop and is assigned inside it: every closure would see the value of the last iteration
+	for _, f := range fns {
+		if len(f.Blocks) == 0 {
+			continue
+		}
+		var loops map[*ssa.BasicBlock]map[*ssa.BasicBlock]bool
+		core.EachInstr(f, func(in ssa.Instruction) {
+			mc, ok := in.(*ssa.MakeClosure)
+			if !ok || mc.Referrers() == nil {
+				return
+			}
+			later := false
+			refs := append([]ssa.Instruction{}, *mc.Referrers()...)
+			for _, ref := range *mc.Referrers() {
+				// a function value re-typed to a named function type (a job function)
+				if ct, ok := ref.(*ssa.ChangeType); ok && ct.Referrers() != nil {
+					refs = append(refs, *ct.Referrers()...)
+				}
+			}
+			for _, ref := range refs {
+				switch x := ref.(type) {
+				case *ssa.Go:
+					later = true
+				case *ssa.Call:
+					if x.Call.Value == ssa.Value(mc) {
+						continue // called on the spot
+					}
+					n := core.CalleeName(x.Common())
+					if strings.Contains(n, "Schedule") || strings.HasSuffix(n, "errgroup.Group.Go") {
+						later = true
+					}
+				}
+			}
+			if !later {
+				return
+			}
+			if loops == nil {
+				loops = naturalLoops(f)
+			}
+			h := innermostLoop(loops, mc.Block())
+			if h == nil {
+				return
+			}
+			body := loops[h]
+			for _, bnd := range mc.Bindings {
+				al, ok := bnd.(*ssa.Alloc)
+				if !ok || body[al.Block()] || al.Referrers() == nil {
+					continue
+				}
+				for _, ref := range *al.Referrers() {
+					if st, ok := ref.(*ssa.Store); ok && st.Addr == ssa.Value(al) && body[st.Block()] {
+						at := mc.Pos()
+						if !at.IsValid() {
+							at = mc.Fn.Pos()
+						}
+						r.Violate(id+".x", core.FnKey(f)+"|loop-closure-shares-variable|"+al.Comment, p.Pos(at), "the function value created here runs later but reads the variable "+al.Comment+", which is declared outside the loop and assigned in every iteration (at "+p.Pos(st.Pos())+"): all the deferred runs see the value of the last iteration")
+						break
+					}
+				}
+			}
+		})
+	}
 }
 
 // imports: rules of sibling properties that decide a clause this property depends on as well (the same code serves
@@ -377,7 +576,9 @@ var imports = map[string][]string{
 	"C15": {"C17.i", "C13.c", "C17.h", "C03.t", "C03.v"},
 	"C20": {"C02.d", "C05.e", "C12.l", "C18.e"},
 	"C05": {"C06.g", "C09.e"},
-	"C04": {"C06.g", "C03.j", "C01.f", "C01.g"},
+	"C04": {"C06.g", "C03.j", "C01.f", "C01.g", "C05.k"},
+	"C06": {"C05.k"},
+	"C12": {"C05.k"},
 	"C08": {"C19.8"},
 	"C14": {"C03.o", "C03.f"},
 }
